@@ -164,6 +164,9 @@ func verifC15Case(line string) (res string) {
 	case "wr":
 		cs := &verifClientStream{}
 		w := &grpcWriter{stream: cs}
+		// like the frame encoder, the caller reuses ONE buffer for the content of every chunk:
+		// a writer that keeps a reference to the content beyond WriteChunk gets it overwritten
+		var reuse []byte
 		for _, tok := range left[1:] {
 			f := strings.Split(tok, ":")
 			if len(f) != 2 {
@@ -174,7 +177,8 @@ func verifC15Case(line string) (res string) {
 			if err1 != nil || err2 != nil {
 				return "badcase"
 			}
-			if err := w.WriteChunk(h, c); err != nil {
+			reuse = append(reuse[:0], c...)
+			if err := w.WriteChunk(h, reuse); err != nil {
 				return "writeerr"
 			}
 		}
